@@ -617,15 +617,10 @@ namespace
 
 int main(int argc, char** argv)
 {
-    Args a = parse_args(argc, argv);
-    if (a.property != "C15")
-    {
-        std::fprintf(stderr, "basin harness serves C15 only\n");
-        return 2;
-    }
-    return run_sharded(a,
+    return sse_main(argc, argv, { "C15" },
                        [&](Ctx& ctx)
                        {
+                           const Args& a = ctx.args;
                            if (ctx.replay_mode)
                            {
                                GridSpec g;
